@@ -142,7 +142,15 @@ class _PendingCompoundStmt(PendingNode[T]):
 
         converting: list[expr] = []
         stack = [converting]
+        unreachable = False
         for node in branch:
+            if unreachable:
+                # nodes after an "interrupt operation" never run.
+                # They are still converted, so that an unconvertable node
+                # is reported, but the result is dropped.
+                yield node
+                continue
+
             if get_interrupt_cnt() > initial_interrupt_cnt:
                 converting = []
                 stack.append(converting)
@@ -151,9 +159,7 @@ class _PendingCompoundStmt(PendingNode[T]):
             converting.extend((yield node))
 
             if isinstance(node, (Break, Continue, Return)):
-                # remove nodes after an "interrupt operation"
-                # since they never run
-                break
+                unreachable = True
 
         while len(stack) > 1:
             # wrap nodes with an "if" to check interrupt at run time
